@@ -243,15 +243,21 @@ func c20(c *Ctx) {
 	// ---- ITF-8 values
 	if true { // the complete int32 domain costs ~5 s on 16 cores, so both tiers sweep it
 		const chunks = 1 << 12
-		var nontriv int64
+		var nontriv, failing int64
 		parallel(chunks, func(i int) {
 			lo := uint64(i) << 20
 			var buf, ref [8]byte
+			fails := 0
 			for u := lo; u < lo+1<<20; u++ {
 				if !c20itfFast(int32(uint32(u)), &buf, &ref) {
-					c20itfValue(c, int32(uint32(u))) // slow path records what differs
+					// the slow path records what differs; after 16 failing values in this
+					// 2^20-value shard the rest are only counted (every one is still evaluated)
+					if fails++; fails <= 16 {
+						c20itfValue(c, int32(uint32(u)))
+					}
 				}
 			}
+			atomic.AddInt64(&failing, int64(fails))
 			if i == 0 {
 				atomic.AddInt64(&nontriv, 1<<20-128)
 			} else {
@@ -262,6 +268,7 @@ func c20(c *Ctx) {
 		c.NontrivialN(nontriv)
 		c.AddExtra("itf8_values", int64(1)<<32)
 		c.AddExtra("itf8_domain_complete", true)
+		c.AddExtra("itf8_values_failing", failing)
 	} else {
 		set := map[int32]struct{}{}
 		for u := uint32(0); u < 1<<16; u++ {
